@@ -189,6 +189,7 @@ void do_release(Ctx &c, const char *who) {
         uint64_t lat = sim::now_boot() - b0;
         if (lat > 1000000000ull) sim::probe("final_release_latency_over_1s_virtual");
         if (lat > 29000000000ull) sim::probe("final_release_waited_for_idle_wakeup");
+        if (lat > 3600000000000ull) sim::probe("final_release_blocked_over_1h_virtual_until_next_task_time");
         final_checks(c, who);
     }
 }
